@@ -49,6 +49,12 @@ func (c *Ctx) stringSliceLiteral(rel, name string) ([]string, []ast.Expr) {
 }
 
 func rulesC07(c *Ctx) {
+	ruleErrorDiscipline(c, "R-C07-8", "connecting either fails with an error or yields a session: no error of a step of Connect is dropped (a dropped one continues with a nil response, endpoint or connection)", map[string][]string{
+		pM: {"(*SSEClientTransport).Connect", "(*StreamableClientTransport).Connect", "(*Client).Connect", "(*Client).discover", "(*Server).Connect", "connect", "(*CommandTransport).Connect", "(*StreamableServerTransport).Connect", "(*SSEServerTransport).Connect"},
+	}, map[string]string{
+		"(*Client).Connect:discover":  "a failed server/discover is the documented trigger of the fall-back to the initialize handshake (R-C07-3 pins when the fall-back is taken); it is not an error of Connect",
+		"(*Client).Connect:Unmarshal": "the -32022 error data is advisory: when it cannot be decoded the client falls back to initialize exactly as for any other discover failure",
+	}, false, 5, 10)
 	supp := c.Obj(pM, "supportedProtocolVersions")
 	v2026 := c.Obj(pM, "protocolVersion20260728")
 	modern := constant.StringVal(v2026.(*types.Const).Val())
